@@ -118,14 +118,18 @@ def run(tier, seed):
     drift = 0
     nspin = 0
     for n, b, closers in behs:
-        drv = IpcDriver(list(range(1, n + 1)), closers=closers)
+        big = len(traces) % 5 == 4              # every fifth schedule with responses larger than 64 KiB
+        drv = IpcDriver(list(range(1, n + 1)), closers=closers, big=big)
+        dl = common.deadline(60)
         try:
-            with common.deadline(60):
+            with dl:
                 res = drv.run(b["steps"])
+            if dl.fired:
+                raise common.Spinning()
         except common.Spinning:
             vd.violation({"what": f"real NetworkClient: the io loop does not give control back (60 s) in schedule "
                                   f"{[(s_['a'], s_.get('c', s_.get('id', ''))) for s_ in b['steps']]}", "clause": "LoopSpins",
-                          "steps": b["steps"], "callers": list(range(1, n + 1)), "closers": closers})
+                          "steps": b["steps"], "callers": list(range(1, n + 1)), "closers": closers, "big": big})
             nspin += 1
             if nspin >= 2:
                 break
@@ -133,6 +137,7 @@ def run(tier, seed):
         except Exception as e:
             raise MachineryError(f"driver failed on {b['steps']}: {type(e).__name__}: {e}")
         tid = len(traces)
+        res["big"] = big
         traces.append({"tid": tid, "callers": list(range(1, n + 1)), "events": res["events"]})
         meta[tid] = (b, res, closers)
         if res["drift"] or sorted(res["events"][-1]["blocked"]) != sorted(b["hung"]):
@@ -154,7 +159,7 @@ def run(tier, seed):
         b, res, closers = meta[tid]
         vd.violation({"what": f"real NetworkClient{' (caller %d runs close())' % closers[0] if closers else ''}: {v['bad']}: schedule {[(s['a'], s.get('c', s.get('id', ''))) for s in b['steps']]} "
                               f"-> events {res['events']}",
-                      "clause": v["bad"], "steps": b["steps"], "callers": traces[tid]["callers"], "closers": list(closers), "events": res["events"]})
+                      "clause": v["bad"], "steps": b["steps"], "callers": traces[tid]["callers"], "closers": list(closers), "big": res.get("big", False), "events": res["events"]})
     ev.cov["traces_validated_against_impl"] = len(traces)
     ev.cov["evaluations"] = len(traces)
     ev.cov["distinct_nontrivial"] = sum(1 for n, b, _ in behs if any(s["a"] == "pcut" for s in b["steps"]) or
@@ -182,6 +187,6 @@ def replay(path):
     from ipcdriver import IpcDriver
     with open(path) as f:
         case = json.load(f)["case"]
-    drv = IpcDriver(case["callers"], closers=case.get("closers", ()))
+    drv = IpcDriver(case["callers"], closers=case.get("closers", ()), big=case.get("big", False))
     print(json.dumps(drv.run(case["steps"]), indent=1))
     os._exit(0)
